@@ -85,3 +85,59 @@ def gen_dag(rng, n=None, kinds=None, max_dim=2, p_edge=0.45, hidden_ok=True):
 
 def chain_models(nodes, edges):
     return [{"nodes": [nd["id"] for nd in nodes], "edges": edges}]
+
+
+# ------------------------------------------------------------------------------------------ feedback topologies (C05)
+def gen_fb(rng, family=None):
+    """Feedback scenario skeleton: (nodes, models, receiver id, sender id or None, pre_ops)."""
+    fam = family or rng.choice(["down", "up", "outside", "sub-up", "sub-down", "resfb"])
+    d = rng.randint(1, 2)
+    pre = []
+    if fam == "down":
+        skind = rng.choice(["fun", "acc", "lin"])
+        n2 = make_node(rng, 2, skind, d)
+        if skind == "lin":
+            n2.update(Wout=mat(rng, d, d, 2, 1), bias=[dy(rng, 2, 1) for _ in range(d)])
+            n2["odim"] = d
+        r = make_node(rng, 1, "fbadd", d)
+        r["fb"] = {"node": 2}
+        nodes = [make_node(rng, 0, "fun", d), r, n2]
+        models = [{"nodes": [0, 1, 2], "edges": [[0, 1], [1, 2]]}]
+        recv, send = 1, 2
+    elif fam == "up":
+        r = make_node(rng, 1, "fbadd", d)
+        r["fb"] = {"node": 0}
+        nodes = [make_node(rng, 0, rng.choice(["fun", "acc"]), d), r]
+        models = [{"nodes": [0, 1], "edges": [[0, 1]]}]
+        recv, send = 1, 0
+    elif fam == "outside":
+        r = make_node(rng, 1, "fbadd", d)
+        r["fb"] = {"node": 2}
+        nodes = [make_node(rng, 0, "fun", d), r, make_node(rng, 2, rng.choice(["fun", "acc"]), d)]
+        models = [{"nodes": [0, 1], "edges": [[0, 1]]}, {"nodes": [2], "edges": []}]
+        pre = [{"op": "call", "model": 1, "x": rows(rng, 1, d)[0]}]
+        recv, send = 1, 2
+    elif fam == "sub-up":
+        r = make_node(rng, 2, "fbadd", d)
+        r["fb"] = {"model": {"nodes": [0, 1], "edges": [[0, 1]], "outs": [1]}}
+        nodes = [make_node(rng, 0, "fun", d), make_node(rng, 1, rng.choice(["acc", "fun"]), d), r]
+        models = [{"nodes": [0, 1, 2], "edges": [[0, 1], [1, 2]]}]
+        recv, send = 2, None
+    elif fam == "sub-down":
+        r = make_node(rng, 0, "fbadd", d)
+        r["fb"] = {"model": {"nodes": [1, 2], "edges": [[1, 2]], "outs": [2]}}
+        nodes = [r, make_node(rng, 1, "fun", d), make_node(rng, 2, rng.choice(["acc", "fun"]), d)]
+        models = [{"nodes": [0, 1, 2], "edges": [[0, 1], [1, 2]]}]
+        recv, send = 0, None
+    else:  # resfb: reservoir with Wfb fed back by its readout
+        res = make_node(rng, 0, "res", d)
+        u = len(res["W"])
+        o = rng.randint(1, 2)
+        res.update(kind="resfb", Wfb=mat(rng, u, o, 2, 1), fbact=rng.choice(["id", "relu", "half"]), fb={"node": 1})
+        rd = make_node(rng, 1, "lin", u)
+        rd.update(Wout=mat(rng, u, o, 2, 2), bias=[dy(rng, 2, 1) for _ in range(o)])
+        rd["odim"] = o
+        nodes = [res, rd]
+        models = [{"nodes": [0, 1], "edges": [[0, 1]]}]
+        recv, send = 0, 1
+    return {"family": fam, "dim": d, "nodes": nodes, "models": models, "recv": recv, "send": send, "pre": pre}
